@@ -480,6 +480,9 @@ def run(tier):
     _l.limb_split_consistent(chk, ['src/ec/'])
     from .. import siblings as _sib
     _sib.check(chk, ['src/ec/'], floor=8)
+    from .. import siblings as _sib
+    _sib.check_group(chk, 'm15/m31', floor=6)
+    _sib.check_group(chk, 'm62/m64', floor=10)
     from .. import lints as _lints_ir
     _lints_ir.ignored_result_regression(chk, ['src/ec/', 'src/int/'])
     return chk.finish()
